@@ -89,6 +89,27 @@ pub fn context_variants() -> Vec<(Vec<Inst>, Shape)> {
             let p: Vec<Inst> = whole.iter().map(|i| model::remap_ids(i, &f)).collect();
             out.push((p, Shape { id: format!("{}:ids{}", s.id, scheme), inst: model::remap_ids(&s.inst, &f) }));
         }
+        // behind 300 further (unused) numeric type declarations: the types that matter are the 301st.. of the module
+        if s.id.contains(":val1") || s.id.contains(":cases1") {
+            let mut p: Vec<Inst> = (0..300u32).map(|i| Inst::new(if i % 3 == 2 { "TypeFloat" } else { "TypeInt" }, None, Some(2000 + i), if i % 3 == 2 { vec![Arg::Lit32(1000 + i)] } else { vec![Arg::Lit32(1000 + i), Arg::Lit32(i % 2)] })).collect();
+            p.extend(whole.iter().cloned());
+            out.push((p, Shape { id: format!("{}:after-300-types", s.id), inst: s.inst.clone() }));
+        }
+        // a constant whose RESULT TYPE names a value defined inside a function (an id that carries a numeric type
+        // without being a type declaration)
+        if s.inst.name() == "Constant" || s.inst.name() == "SpecConstant" {
+            if let Some(t) = s.inst.rtype {
+                let mut p = whole.clone();
+                p.push(f1[0].clone());
+                p.push(f1[1].clone());
+                p.push(Inst::new("Undef", Some(t), Some(20), vec![]));
+                p.push(f1[2].clone());
+                p.push(f1[3].clone());
+                let mut i = s.inst.clone();
+                i.rtype = Some(20);
+                out.push((p, Shape { id: format!("{}:typed-by-a-function-local-value", s.id), inst: i }));
+            }
+        }
         let mut p = whole.clone();
         p.extend(f1.iter().cloned());
         out.push((p.clone(), Shape { id: format!("{}:after-function", s.id), inst: s.inst.clone() }));
